@@ -320,6 +320,9 @@ class Sim:
             if self.record:
                 self.trace.append(("exhausted",))
             self._q(self.qmon.on_exhausted)
+        elif kind == "db.link":
+            if self.mirrors is not None:
+                self.mirrors.link(p[1])
         elif kind == "db.add.pre":
             self.on_add_pre(*p)
         elif kind == "db.add":
@@ -493,8 +496,12 @@ def exec_ops(sim, R, ctx, on_spec, ops=None):
                     ctx.ev("status", "raised")
                     ctx.probe("status_raised_out_of_scope")
             elif k == "restart":
-                b = pickle.dumps(css)
-                css2 = pickle.loads(b)
+                extra = sim.mirrors.objects() if sim.mirrors is not None else ()
+                b = pickle.dumps((css,) + tuple(extra))
+                restored = pickle.loads(b)
+                css2 = restored[0]
+                if sim.mirrors is not None:
+                    sim.mirrors.restored(css2, restored[1:])
                 ctx.fault("pickle_restart")
                 ctx.ev("restart", sim.packets)
                 if any(css.classqueue.curr_level):
@@ -525,6 +532,10 @@ def execute_search(R, ctx, focus):
     def on_spec(spec, how):
         n_specs[0] += 1
         sim.specs.append(spec)
+        if focus == "C17":
+            kinds.update(specval.check_structure(spec, start, sim.allowed, ctx, tag="C02"))
+        if focus == "C11":
+            check_forest_extraction(sim, ctx, start)
         if focus in ("C02", "ALL"):
             kinds.update(specval.check_structure(spec, start, sim.allowed, ctx, tag="C02"))
             # the *list* of rules, before CombinatorialSpecification folds it into a
@@ -543,16 +554,15 @@ def execute_search(R, ctx, focus):
             specval.check_counts(spec, start, R["nmax"], order_seed[0], ctx, tag="C01")
 
     with install(sim):
+        if focus == "C14":
+            from . import c14
+
+            sim.mirrors = c14.Mirrors(sim, R, ctx)
         try:
             sim.build()
         except PacketCap:
             ctx.probe("packet_cap")
             return
-        if focus == "C14":
-            from . import c14
-
-            sim.mirrors = c14.Mirrors(sim, R, ctx)
-            sim.mirrors.replay_constructor()
         result = exec_ops(sim, R, ctx, on_spec)
         if focus == "C14" and sim.mirrors is not None:
             sim.mirrors.finish()
@@ -585,9 +595,49 @@ def execute_search(R, ctx, focus):
             )
         )
         rules = max((s.number_of_rules() for s in sim.specs), default=0)
+        c11_nontrivial = ctx.nontrivial
         ctx.nontrivial = result == "spec" and rules >= 3 and (bool(ctx.faults) or R.get("fault_free", False))
+        if focus == "C11":
+            ctx.nontrivial = ctx.nontrivial and c11_nontrivial
         for kd in kinds:
             ctx.probe("rule_form_" + kd)
+
+
+def check_forest_extraction(sim, ctx, start):
+    """C11, layer 'search': the universe recorded by a real forest search."""
+    from . import c11
+    from comb_spec_searcher.rule_db.forest import ForestRuleExtractor
+
+    css = sim.searcher
+    db = css.ruledb
+    if not isinstance(db, RuleDBForest):
+        return
+    tm = db.table_method
+    delivered = [(k.parent, tuple(k.children), tuple(k.shifts), k.bucket.name) for k in tm._rules]  # pylint: disable=protected-access
+    root = css.start_label
+    ext = ForestRuleExtractor(root, db, css.classdb, css.strategy_pack)
+    ext.check()
+    needed = [(k.parent, tuple(k.children), tuple(k.shifts), k.bucket.name) for k in ext.needed_rules]
+    c11.check_extraction(delivered, needed, root, ctx, tag="C11:")
+    nontrivial = ctx.nontrivial
+    # each extracted key can be turned back into a concrete rule of the pack with the same key
+    rules = list(ext.rules(db._rule_cache))  # pylint: disable=protected-access
+    keyset = set(delivered)
+    for rule in rules:
+        # rules() hands equivalences out in their one-child form; the key belongs to the rule it was built from
+        keyed = rule.original_rule if type(rule).__name__ == "EquivalenceRule" else rule
+        k = keyed.forest_key(css.classdb.get_label, css.classdb.is_empty)
+        kk = (k.parent, tuple(k.children), tuple(k.shifts), k.bucket.name)
+        if kk not in keyset:
+            raise Violation("C11:rule-key-not-inserted", f"extracted rule {rule.comb_class} -> {rule.children} has forest key {kk}, which was never inserted")
+        specval.check_rule_genuine(rule, sim.allowed, tag="C11")
+    nonempty_needed = [k for k in needed if not (k[1] == () and WW.truth_empty(css.classdb.get_class(k[0])))]
+    if len(rules) != len(nonempty_needed):
+        raise Violation("C11:rules-vs-keys", f"{len(nonempty_needed)} non-empty extracted keys but {len(rules)} concrete rules")
+    if not db.reverse and any(k[3] == "REVERSE" for k in delivered):
+        raise Violation("C11:reverse-key-although-disabled", "reverse keys inserted with reverse=False")
+    ctx.nontrivial = nontrivial
+    ctx.stat("forest_extractions")
 
 
 def simplify_search(R):
